@@ -27,6 +27,8 @@
   validation and no error result (probe `mismatch_rejected kind=rkg_levelQ*`, key C14-rkg-agg-unchecked).
 -/
 import Lattigo.Proofs.MPKeys
+import Lattigo.Props.C14Ring
+import Lattigo.Props.C14Noise
 
 namespace Lattigo.Props.C14
 open Lattigo.MP
